@@ -168,6 +168,36 @@ class Paths:
             return bool(vals) and all(self.is_copy(v, _depth + 1) for v in vals)
         return False
 
+    def _component(self, v: ast.AST, idx: int) -> Optional[str]:
+        """path of component idx of a pair: a tuple display, or what a helper outside the frozen table returns as that component
+        (every return a display of that length, all agreeing on one self-rooted path)"""
+        if isinstance(v, ast.Await):
+            v = v.value
+        if isinstance(v, (ast.Tuple, ast.List)):
+            if any(isinstance(x, ast.Starred) for x in v.elts) or not 0 <= idx < len(v.elts):
+                return None
+            return self.of(v.elts[idx])
+        if isinstance(v, ast.Call):
+            cal = self.sc.callee(v)
+            known = self.an.known_funcs
+            if cal.kind == "pkg" and len(cal.targets) == 1 and known is not None and cal.targets[0].qual not in known and cal.targets[0].qual not in self._busy:
+                t = cal.targets[0]
+                recv_self = isinstance(v.func, ast.Attribute) and isinstance(v.func.value, ast.Name) and v.func.value.id == self.sc.selfname
+                self._busy.add(t.qual)
+                try:
+                    sub = Paths(self.an, t)
+                    rets = [r.value for r in sub.sc._own_nodes() if isinstance(r, ast.Return)]
+                    if not rets or any(r is None for r in rets):
+                        return None
+                    ps = {sub._component(r, idx) if isinstance(r, (ast.Tuple, ast.List)) else None for r in rets}
+                finally:
+                    self._busy.discard(t.qual)
+                if len(ps) == 1 and None not in ps and recv_self:
+                    p = next(iter(ps))
+                    if p == "self" or p.startswith("self."):
+                        return p
+        return None
+
     def _name(self, name: str) -> Optional[str]:
         sc = self.sc
         if name == sc.selfname:
@@ -188,6 +218,8 @@ class Paths:
                     vals.append(("i", h[1]))
                 elif h[0] == "with":
                     vals.append(("v", h[1]))
+                elif h[0] == "elt" and h[1][0] == "assign" and isinstance(h[2], int):
+                    vals.append(("e", (h[1][1], h[2])))  # `a, b = <pair>`: component h[2] of the right-hand side
                 else:
                     vals.append(("?", None))
             paths = set()
@@ -196,6 +228,8 @@ class Paths:
                 for k, v in vals:
                     if k == "v":
                         p = self.of(v)
+                    elif k == "e":
+                        p = self._component(v[0], v[1])
                     elif k == "i":
                         p = self.of(v)
                         p = None if p is None else f"{p}[]"
